@@ -1545,7 +1545,8 @@ let rec rejected f e =
 let rec vtruth = function
 | VNone -> false
 | VBool b -> b
-| VLeaf (kind, _) -> negb (Nat.eqb kind (S O))
+| VLeaf (kind, _) ->
+  negb ((||) (Nat.eqb kind (S O)) (Nat.eqb kind (S (S (S (S (S O)))))))
 | VItem (i, _) -> negb (Nat.eqb i (S O))
 | VOp (o, args) ->
   (match o with
